@@ -374,7 +374,7 @@ def run():
     n = ck.pick(2000, 50000)
     per = ck.pick(100, 500)
     tasks = [("tvf.checks.c05:_batch", dict(seed=ck.seed, start=s, count=min(per, n - s)), None) for s in range(0, n, per)]
-    for i, st, val in farm.run(tasks, timeout=1800, progress="C05-pools"):
+    for i, st, val in farm.run(tasks, timeout=ck.pick(300, 1800), progress="C05-pools"):
         if st != "ok":
             ck.inconc(f"batch {i}: {st} {str(val)[:300]}")
             continue
